@@ -85,6 +85,17 @@ theorem flat_mesh_source (F : List (List Nat)) (tri : ∀ f, f ∈ F → f.lengt
   rw [(bridge_flatKeys t i 0).1, (bridge_flatKeys t i ((F.getD t []).getD i 0)).2]
   exact ⟨flatten_getD_tri F tri t i ht hi, rfl⟩
 
+/-- `__init__` as written: only "square" / "circle" are accepted; without a custom boundary the mode is the one `from_string`
+returns, with a custom boundary it is CUSTOM whatever string was passed; per-corner storage is the default -/
+theorem init_source :
+    C17S.initAllowedModes = ["square", "circle"] ∧ (∀ m, C17S.initMode false m = m) ∧
+    (∀ m, some (C17S.initMode true m) = C17S.boundaryModes.lookup "CUSTOM") ∧
+    C17S.initKeys = ("custom_boundary", "use_cotan") ∧ C17S.baseSaveOnCorners = ("save_on_corners", true) := by
+  obtain ⟨a, b, c, d, e⟩ := bridge_init
+  refine ⟨a, b, ?_, d, e⟩
+  intro m
+  rw [c m, (bridge_fromString).1]; rfl
+
 /-! ## Part B: the discrete maximum principle -/
 
 /-- neighbours of free vertices are free or border vertices as soon as the two lists cover the faces -/
@@ -135,6 +146,54 @@ theorem interior_strictly_inside_halfplane (cot : Option (List Rat))
   max_principle_strict _ free bnd (fun x => α * u x + β * v x) c
     (fun r _ => offNeg_lapTriplets cot hpos F r)
     (fun r hr => harmonic_linear _ u v α β r (hu r hr) (hv r hr)) closed conn hb hr hp hb0
+
+/-- STRICTLY CONVEX BORDER (round 5): if at most two border positions lie on the line `α x + β y = c` of a supporting
+half-plane (what strict convexity of the border polygon means: circle target, strictly convex custom target) and the free
+vertex `r` reaches three distinct border vertices, then `r` is strictly inside that half-plane. -/
+theorem interior_strictly_inside_of_strictly_convex_border (cot : Option (List Rat))
+    (hpos : ∀ l, cot = some l → ∀ k, 0 < l.getD k 0) (F : List (List Nat)) (free bnd : List Nat) (u v : Nat → Rat)
+    (hu : ∀ r, r ∈ free → wSum (lapTriplets cot F) r * u r = wDot (lapTriplets cot F) u r)
+    (hv : ∀ r, r ∈ free → wSum (lapTriplets cot F) r * v r = wDot (lapTriplets cot F) v r)
+    (closed : ∀ r, r ∈ free → ∀ j, Nbr (lapTriplets cot F) r j → j ∈ free ∨ j ∈ bnd)
+    (conn : ∀ r, r ∈ free → ∃ b, b ∈ bnd ∧ Reach (lapTriplets cot F) free r b)
+    (α β c : Rat) (hb : ∀ b, b ∈ bnd → α * u b + β * v b ≤ c)
+    (strict : ∀ b1 b2 b3, b1 ∈ bnd → b2 ∈ bnd → b3 ∈ bnd → b1 ≠ b2 → b1 ≠ b3 → b2 ≠ b3 →
+      ¬ (α * u b1 + β * v b1 = c ∧ α * u b2 + β * v b2 = c ∧ α * u b3 + β * v b3 = c))
+    {r b1 b2 b3 : Nat} (hr : r ∈ free) (m1 : b1 ∈ bnd) (m2 : b2 ∈ bnd) (m3 : b3 ∈ bnd)
+    (d12 : b1 ≠ b2) (d13 : b1 ≠ b3) (d23 : b2 ≠ b3)
+    (p1 : Reach (lapTriplets cot F) free r b1) (p2 : Reach (lapTriplets cot F) free r b2)
+    (p3 : Reach (lapTriplets cot F) free r b3) :
+    α * u r + β * v r < c := by
+  have key := fun (b0 : Nat) (p : Reach (lapTriplets cot F) free r b0) (h : α * u b0 + β * v b0 < c) =>
+    interior_strictly_inside_halfplane cot hpos F free bnd u v hu hv closed conn α β c hb hr p h
+  by_cases e1 : α * u b1 + β * v b1 = c
+  · by_cases e2 : α * u b2 + β * v b2 = c
+    · have e3 : α * u b3 + β * v b3 ≠ c := fun e3 => strict b1 b2 b3 m1 m2 m3 d12 d13 d23 ⟨e1, e2, e3⟩
+      exact key b3 p3 (lt_of_le_of_ne (hb b3 m3) e3)
+    · exact key b2 p2 (lt_of_le_of_ne (hb b2 m2) e2)
+  · exact key b1 p1 (lt_of_le_of_ne (hb b1 m1) e1)
+
+/-- SQUARE TARGET (round 5): border positions in the closed unit square (what `square_boundary_on_square` gives); a free vertex
+that reaches the border vertices placed at the corners `(0,0)` and `(1,1)` lies in the OPEN unit square. (A vertex that only
+reaches border vertices of one side lies on that side: the open finding "pocket behind a chord".) -/
+theorem interior_strictly_inside_unit_square (cot : Option (List Rat))
+    (hpos : ∀ l, cot = some l → ∀ k, 0 < l.getD k 0) (F : List (List Nat)) (free bnd : List Nat) (u v : Nat → Rat)
+    (hu : ∀ r, r ∈ free → wSum (lapTriplets cot F) r * u r = wDot (lapTriplets cot F) u r)
+    (hv : ∀ r, r ∈ free → wSum (lapTriplets cot F) r * v r = wDot (lapTriplets cot F) v r)
+    (closed : ∀ r, r ∈ free → ∀ j, Nbr (lapTriplets cot F) r j → j ∈ free ∨ j ∈ bnd)
+    (conn : ∀ r, r ∈ free → ∃ b, b ∈ bnd ∧ Reach (lapTriplets cot F) free r b)
+    (hbox : ∀ b, b ∈ bnd → OnSquare (u b, v b))
+    {r p q : Nat} (hr : r ∈ free) (hp : Reach (lapTriplets cot F) free r p) (hq : Reach (lapTriplets cot F) free r q)
+    (p00 : u p = 0 ∧ v p = 0) (q11 : u q = 1 ∧ v q = 1) :
+    0 < u r ∧ u r < 1 ∧ 0 < v r ∧ v r < 1 := by
+  have S := fun (α β c : Rat) (hb : ∀ b, b ∈ bnd → α * u b + β * v b ≤ c) (b0 : Nat)
+      (pp : Reach (lapTriplets cot F) free r b0) (h : α * u b0 + β * v b0 < c) =>
+    interior_strictly_inside_halfplane cot hpos F free bnd u v hu hv closed conn α β c hb hr pp h
+  have h1 := S 1 0 1 (fun b hb => by have := (hbox b hb).1; simp only [] at this; linarith) p hp (by rw [p00.1, p00.2]; norm_num)
+  have h2 := S (-1) 0 0 (fun b hb => by have := (hbox b hb).1; simp only [] at this; linarith) q hq (by rw [q11.1, q11.2]; norm_num)
+  have h3 := S 0 1 1 (fun b hb => by have := (hbox b hb).1; simp only [] at this; linarith) p hp (by rw [p00.1, p00.2]; norm_num)
+  have h4 := S 0 (-1) 0 (fun b hb => by have := (hbox b hb).1; simp only [] at this; linarith) q hq (by rw [q11.1, q11.2]; norm_num)
+  refine ⟨by linarith, by linarith, by linarith, by linarith⟩
 
 /-- The two together, from the system AS WRITTEN IN THE SOURCE: if `(u, v)` restricted to `freeInds` solve the two systems
 `run` hands to `spsolve`, the faces are triangles covered by the duplicate-free `freeInds ++ bndInds`, and every free vertex
